@@ -621,18 +621,29 @@ class ParsedField:
 
 def load_fields(stream: "SupportsRead[bytes]") -> Generator[ParsedField, None, None]:
     while True:
-        try:
-            num_wire, raw = load_varint(stream)
-        except EOFError:
+        first = stream.read(1)
+        if not first:
+            # Clean end of input at a field boundary.
             return
+        if first[0] & 0x80:
+            # Multi-byte tag: the rest of the varint has to be there.
+            high, rest = load_varint(stream)
+            if len(rest) >= 10:
+                raise ValueError("Too many bytes when decoding varint.")
+            num_wire, raw = (first[0] & 0x7F) | (high << 7), first + rest
+        else:
+            num_wire, raw = first[0], first
         number = num_wire >> 3
         wire_type = num_wire & 0x7
+        if number == 0:
+            raise ValueError("Invalid field number 0 when decoding a message.")
 
         decoded: Any = None
         if wire_type == WIRE_VARINT:
             decoded, r = load_varint(stream)
             raw += r
         elif wire_type == WIRE_FIXED_64:
+            length = 8
             decoded = stream.read(8)
             raw += decoded
         elif wire_type == WIRE_LEN_DELIM:
@@ -641,8 +652,14 @@ def load_fields(stream: "SupportsRead[bytes]") -> Generator[ParsedField, None, N
             raw += r
             raw += decoded
         elif wire_type == WIRE_FIXED_32:
+            length = 4
             decoded = stream.read(4)
             raw += decoded
+        else:
+            raise ValueError(f"Unsupported wire type {wire_type} when decoding a message.")
+
+        if wire_type != WIRE_VARINT and len(decoded) != length:
+            raise EOFError("Stream ended unexpectedly in the middle of a field.")
 
         yield ParsedField(number=number, wire_type=wire_type, value=decoded, raw=raw)
 
